@@ -862,7 +862,33 @@ _C09_AVG = dict(_C09_MAIN, returns="vec", vars={"result": "vec", "sub_result": "
                 prims=_C09_MAIN_PRIMS, raises=_C09_MAIN_RAISES)
 C09_MEAN_AVG = dict(_C09_AVG, func="predict_mean_avg", name="src_predict_mean_avg")
 C09_VIABILITY_AVG = dict(_C09_AVG, func="predict_viability_avg", name="src_predict_viability_avg")
+# the methods of the interaction sample type (models/sparse_combo_interaction.py)
+_C09_I = {"t": "inter_theta"}
+_C09_INTER_ATTRS = [("__t.W", "iW {t}", "mat", _C09_I), ("__t.V2", "iV2 {t}", "mat", _C09_I), ("__t.precision", "iprec {t}", "qnum", _C09_I)]
+_C09_INTER = dict(
+    _C09, file="src/batchie/models/sparse_combo_interaction.py", cls="SparseDrugComboInteractionMCMCSample", pyparams=["self", "data"],
+    params=[("orc", "oracle"), ("self", "inter_theta"), ("data", "pydata")], returns="vec",
+    raises=[("SparseDrugComboInteraction only supports data sets with combinations of 2 treatments", 2)])     # ValueError = ERR_ARITY
+C09_IN_MEAN = dict(
+    _C09_INTER, func="predict_conditional_mean", name="src_in_predict_conditional_mean", vars={"interaction": "vec"},
+    params=[("self", "inter_theta"), ("data", "pydata")],
+    prims=_C09_INTER_ATTRS + _C09_DATA_ATTRS + _C09_INDEX + _C09_OPS + _C09_COPY0)
+C09_IN_VIABILITY = dict(
+    _C09_INTER, func="predict_viability", name="src_in_predict_viability",
+    vars={"interaction": "vec", "single_effect": "vec", "viability": "vec", "c": "Z", "dd1": "Z", "dd2": "Z"},
+    prims=_C09_INTER_ATTRS + _C09_DATA_ATTRS + _C09_INDEX + _C09_VIAB + [
+        ("self.predict_conditional_mean(__d)", "!src_in_predict_conditional_mean self' {d}", "vec", _C09_D),     # runs its translation
+        ("zip(__a, __b, __c)", "zip3 {a} {b} {c}", "list (Z * Z * Z)", {"a": "list Z", "b": "list Z", "c": "list Z"}),
+        ("__t.single_effect_lookup[__c, __d]", "!lookup_key (ilookup {t}) {c} {d}", "qnum", {"t": "inter_theta", "c": "Z", "d": "Z"}),
+        ("__a * __b", "qmul {a} {b}", "qnum", {"a": "qnum", "b": "qnum"}),
+        ("np.clip(__x, a_min=__lo, a_max=__hi)", "vclip {lo} {hi} {x}", "vec", {"x": "list qnum", "lo": "qnum", "hi": "qnum"}),   # of a Python list of floats
+        ("np.exp(__x)", "vexp orc {x}", "vec", {"x": "vec"}), ("np.log(__x)", "vlog orc {x}", "vec", {"x": "vec"}),
+        ("__a + __b", "vadd {a} {b}", "vec", {"a": "vec", "b": "vec"})])
+C09_IN_VARIANCE = dict(
+    _C09_INTER, func="predict_conditional_variance", name="src_in_predict_conditional_variance",
+    params=[("self", "inter_theta"), ("data", "pydata")], vars={"v": "vec"},
+    prims=_C09_INTER_ATTRS + _C09_DATA_ATTRS + _C09_VARIANCE)       # `1.0 / p` is the pattern `1 / __p` (1 == 1.0)
 C09_ALL = [C09_COPY_ZERO, C09_DATA_SIZE, C09_DATA_ARITY, C09_PREDICT, C09_PREDICT_SINGLE,
-           C09_SP_VIABILITY, C09_SP_MEAN, C09_SP_VARIANCE,
+           C09_SP_VIABILITY, C09_SP_MEAN, C09_SP_VARIANCE, C09_IN_MEAN, C09_IN_VIABILITY, C09_IN_VARIANCE,
            C09_VIABILITY_ALL, C09_MEAN_ALL, C09_VARIANCE_ALL, C09_MEAN_AVG, C09_VIABILITY_AVG]
 ALL += C09_ALL
